@@ -19,13 +19,19 @@ EXTENDS Text, Json
 CONSTANT MaxPre    \* number of blocks before the faulty block (0..MaxPre)
 
 Blocks == <<"; a comment with ( and \"\n", "\n", "(def a1 1)\n", "(def a2\n  (+ 1\n     2))\n",
-            "(def a3 ¬line1\nline2 (\nline3¬)\n", "(def a4 \"s\") ; trailing comment\n\n">>
+            "(def a3 ¬line1\nline2 (\nline3¬)\n", "(def a4 \"s\") ; trailing comment\n\n",
+            \* the name of the undefined symbol occurs (as data) in an earlier form
+            "(def a5 '(undefined-sym\n  q))\n">>
+\* every text starts with the definition of a two-parameter function (for the arity fault)
+Prelude == "(def ff2 (fn [p q]\n  (list p q)))\n"
 Faults == <<[n |-> "undefined", t |-> "undefined-sym"], [n |-> "throw", t |-> "(throw \"boom\")"],
             [n |-> "builtin", t |-> "(nth [1] 5)"], [n |-> "assert", t |-> "(assert false \"failed\")"],
             [n |-> "thread-builtin", t |-> "(-> [1] (nth 5))"], [n |-> "thread-last-throw", t |-> "(->> \"boom\" (throw))"],
             \* the failing expression as the LAST operand of a multi-operand library macro / an INNER step of ->
             [n |-> "and-last-builtin", t |-> "(and 1 2 (nth [1] 5))"], [n |-> "or-last-throw", t |-> "(or false nil (throw \"boom\"))"],
-            [n |-> "thread-inner-builtin", t |-> "(-> [1] (nth 7) (or 0))"]>>
+            [n |-> "thread-inner-builtin", t |-> "(-> [1] (nth 7) (or 0))"],
+            \* a function defined in ANOTHER top-level form called with too few arguments: the faulty expression is the call
+            [n |-> "arity", t |-> "(ff2 1)"]>>
 
 \* wrappers: d = definition form (earlier top-level form) or "", b/a = text before/after the fault,
 \* where = "call" if the fault sits in the calling form, "def" if it sits in the definition form
@@ -79,7 +85,7 @@ Init == /\ ph = 0 /\ npre \in 0..MaxPre /\ pre \in 0..(Pow(NBk, npre) - 1)
 Next == /\ ph = 0 /\ ph' = 1 /\ UNCHANGED <<npre, pre, gap, w, f, post>>
         /\ LET W == Wrappers[w]
                F == Faults[f].t
-               preText == Join(BlockSeq(npre, pre), "")
+               preText == Prelude \o Join(BlockSeq(npre, pre), "")
                defText == FillHole(W.d, F)
                gapText == IF gap = 0 THEN "" ELSE Blocks[gap]
                callText == W.b \o (IF W.where = "call" THEN F ELSE "") \o W.a
